@@ -1,12 +1,147 @@
-"""Contracts for paramiko/message.py and the util helpers it uses"""
+"""Contracts for paramiko/message.py and the util helpers it uses.
+
+Abstract state of a Message: buf = self.packet.getvalue(), pos = self.packet.tell().
+Writers require the write position to be at the end of the buffer (true for every message built with Message()
+and add_*; a Message(content) is only read)."""
 
 MSG = "paramiko.message.Message."
+BUF = "self.packet.getvalue()"
+POS = "self.packet.tell()"
+OBUF = "old(self.packet.getvalue())"
+OPOS = "old(self.packet.tell())"
+AT_END = {"write_pos_at_end": "%s == len(%s)" % (POS, BUF)}
 
 
-def declare(E):
+def appended(enc):
+    return {"appended": "%s == %s + %s" % (BUF, OBUF, enc), "pos_at_end": "%s == len(%s)" % (POS, BUF)}
+
+
+def reader(n, value_clause, extra=None):
+    """contract pieces of a reader that consumes n bytes when they are available"""
+    d = {"buffer_unchanged": "%s == %s" % (BUF, OBUF)}
+    d.update(value_clause)
+    if extra:
+        d.update(extra)
+    return d
+
+
+def declare(E, with_contracts=True):
     E.declare_class("paramiko.message.Message", {"packet": "bytesio", "seqno": "int"})
     # leaf helpers whose real AST is executed in place (DESIGN section 1)
     E.inline("paramiko.common.byte_ord", "paramiko.common.byte_chr", "paramiko.common.byte_mask",
              "paramiko.util.clamp_value", "paramiko.util.b", "paramiko.util.u", "paramiko.util.asbytes",
              "paramiko.message.Message.asbytes", "paramiko.message.Message.__init__",
              "paramiko.message.Message.__bytes__")
+    if not with_contracts:
+        return
+    POS_OK = {"pos_in_buffer": "0 <= %s and %s <= len(%s)" % (POS, POS, BUF)}
+    avail = "(len(%s) - %s)" % (OBUF, OPOS)
+
+    # ---------------- writers (behaviour: buffer gets the encoding appended; position stays at the end)
+    def writer(name, params, enc, extra_requires=None, raises=None, extra_ensures=None):
+        req = dict(AT_END)
+        req.update(extra_requires or {})
+        ens = {"pos_at_end": "%s == len(%s)" % (POS, BUF)}
+        ens.update(extra_ensures or {})
+        E.contract(MSG + name, params=params, requires=req, ensures=ens,
+                   cases=[dict(name="appended", when="True",
+                               post={"self.packet.buf": "%s + %s" % (BUF, enc),
+                                     "self.packet.pos": "len(%s) + len(%s)" % (BUF, enc)})],
+                   modifies=["self.packet.buf", "self.packet.pos"], returns="self", raises=raises or {})
+
+    writer("add_bytes", {"b": "bytes"}, "b")
+    writer("add_byte", {"b": "bytes"}, "b")
+    writer("add_boolean", {"b": "bool"}, "(b'\\x01' if b else b'\\x00')")
+    writer("add_int", {"n": "int"}, "pack32(n)", extra_ensures={"in_range": "0 <= n and n < 2**32"},
+           raises={"struct.error": {"when": "not (0 <= n and n < 2**32)", "ensures": ["%s == %s" % (BUF, OBUF)]}})
+    writer("add_int64", {"n": "int"}, "pack64(n)", extra_ensures={"in_range": "0 <= n and n < 2**64"},
+           raises={"struct.error": {"when": "not (0 <= n and n < 2**64)", "ensures": ["%s == %s" % (BUF, OBUF)]}})
+    writer("add_string", {"s": "union[bytes,str]"}, "pack32(len(asbytes_spec(s))) + asbytes_spec(s)",
+           extra_ensures={"length_fits": "len(asbytes_spec(s)) < 2**32"},
+           raises={"struct.error": "len(asbytes_spec(s)) >= 2**32"})
+    writer("add_mpint", {"z": "int"}, "pack32(len(mpint_spec(z))) + mpint_spec(z)",
+           extra_ensures={"zero_is_empty_string": "implies(z == 0, len(mpint_spec(z)) == 0)"},
+           raises={"struct.error": "len(mpint_spec(z)) >= 2**32"})
+
+    # ---------------- readers
+    avail = "(len(%s) - %s)" % (BUF, POS)          # evaluated in the pre-state inside cases
+    oavail = "(len(%s) - %s)" % (OBUF, OPOS)
+    ROK = {"buffer_unchanged": "%s == %s" % (BUF, OBUF), "pos_ok": "0 <= %s and %s <= len(%s)" % (POS, POS, BUF)}
+
+    def reader(name, params, cases, returns, extra_ensures=None, raises=None):
+        ens = dict(ROK)
+        ens.update(extra_ensures or {})
+        E.contract(MSG + name, params=params, requires=POS_OK, ensures=ens, cases=cases,
+                   modifies=["self.packet.pos"], returns=returns, raises=raises or {})
+
+    reader("get_bytes", {"n": "int"}, [
+        dict(name="enough", when="0 <= n and n <= %s" % avail,
+             result="%s[%s:%s + n]" % (BUF, POS, POS), post={"self.packet.pos": "%s + n" % POS}),
+        dict(name="short_padded", when="n > %s and n < 2**20" % avail,
+             result="%s[%s:] + bytes(n - %s)" % (BUF, POS, avail), post={"self.packet.pos": "len(%s)" % BUF}),
+        dict(name="short_unpadded", when="n > %s and n >= 2**20" % avail,
+             result="%s[%s:]" % (BUF, POS), post={"self.packet.pos": "len(%s)" % BUF}),
+        dict(name="negative_reads_rest", when="n < 0",
+             result="%s[%s:]" % (BUF, POS), post={"self.packet.pos": "len(%s)" % BUF}),
+    ], "bytes")
+    reader("get_byte", {}, [
+        dict(name="enough", when="%s >= 1" % avail, result="%s[%s:%s + 1]" % (BUF, POS, POS),
+             post={"self.packet.pos": "%s + 1" % POS}),
+        dict(name="exhausted", when="%s < 1" % avail, result="b'\\x00'"),
+    ], "bytes")
+    reader("get_boolean", {}, [
+        dict(name="enough", when="%s >= 1" % avail, result="%s[%s] != 0" % (BUF, POS),
+             post={"self.packet.pos": "%s + 1" % POS}),
+        dict(name="exhausted", when="%s < 1" % avail, result="False"),
+    ], "bool")
+    reader("get_int", {}, [
+        dict(name="enough", when="%s >= 4" % avail, result="unpack32(%s[%s:%s + 4])" % (BUF, POS, POS),
+             post={"self.packet.pos": "%s + 4" % POS}),
+    ], "int", extra_ensures={"range": "0 <= result and result < 2**32"})
+    reader("get_int64", {}, [
+        dict(name="enough", when="%s >= 8" % avail, result="unpack64(%s[%s:%s + 8])" % (BUF, POS, POS),
+             post={"self.packet.pos": "%s + 8" % POS}),
+    ], "int", extra_ensures={"range": "0 <= result and result < 2**64"})
+    LEN = "unpack32(%s[%s:%s + 4])" % (BUF, POS, POS)
+    WF = "%s >= 4 and %s <= %s - 4" % (avail, LEN, avail)
+    BODY = "%s[%s + 4:%s + 4 + %s]" % (BUF, POS, POS, LEN)
+    for name in ("get_string", "get_binary"):
+        reader(name, {}, [dict(name="well_formed", when=WF, result=BODY, post={"self.packet.pos": "%s + 4 + %s" % (POS, LEN)})],
+               "bytes")
+    OLEN = "unpack32(%s[%s:%s + 4])" % (OBUF, OPOS, OPOS)
+    OBODY = "%s[%s + 4:%s + 4 + %s]" % (OBUF, OPOS, OPOS, OLEN)
+    reader("get_text", {}, [dict(name="well_formed", when=WF + " and utf8ok(%s)" % BODY, result="utf8dec(%s)" % BODY,
+                                 post={"self.packet.pos": "%s + 4 + %s" % (POS, LEN)})],
+           "str",
+           # documented behaviour is to return text; non-UTF-8 peer bytes make it raise (C38's business)
+           raises={"UnicodeDecodeError": "not (%s >= 4 and %s <= %s - 4 and utf8ok(%s))" % (oavail, OLEN, oavail, OBODY)})
+    E.contract(MSG + "get_so_far", requires=POS_OK, modifies=["self.packet.pos"],
+               ensures=dict(ROK, pos_unchanged="%s == %s" % (POS, OPOS)),
+               cases=[dict(name="prefix", when="True", result="%s[0:%s]" % (BUF, POS))],
+               returns="bytes", raises={})
+    E.contract(MSG + "get_remainder", requires=POS_OK, modifies=["self.packet.pos"],
+               ensures=dict(ROK, pos_unchanged="%s == %s" % (POS, OPOS)),
+               cases=[dict(name="suffix", when="True", result="%s[%s:]" % (BUF, POS))],
+               returns="bytes", raises={})
+    E.contract(MSG + "rewind", modifies=["self.packet.pos"],
+               ensures={"pos_zero": "%s == 0" % POS, "buffer_unchanged": "%s == %s" % (BUF, OBUF)},
+               returns="none", raises={})
+
+
+def declare_mpint(E):
+    """mpint layer.  deflate_long / inflate_long: contract = what the code computes, stated against the
+    specification functions mpint_spec / tcval (assumed here; see props/C39 for the bounded stand-in)."""
+    E.contract("paramiko.util.deflate_long", params={"n": "int", "add_sign_padding": "bool"}, returns="bytes",
+               ensures=["implies(add_sign_padding, result == (b'\\x00' if n == 0 else mpint_spec(n)))", "len(result) >= 1"],
+               modifies=[], raises={})
+    E.contract("paramiko.util.inflate_long", params={"s": "bytes", "always_positive": "bool"}, returns="int",
+               ensures=["implies(not always_positive, result == tcval(s))"], modifies=[], raises={})
+    avail = "(len(%s) - %s)" % (BUF, POS)
+    LEN = "unpack32(%s[%s:%s + 4])" % (BUF, POS, POS)
+    WF = "%s >= 4 and %s <= %s - 4" % (avail, LEN, avail)
+    BODY = "%s[%s + 4:%s + 4 + %s]" % (BUF, POS, POS, LEN)
+    E.contract(MSG + "get_mpint", requires={"pos_in_buffer": "0 <= %s and %s <= len(%s)" % (POS, POS, BUF)},
+               ensures={"buffer_unchanged": "%s == %s" % (BUF, OBUF)},
+               cases=[dict(name="well_formed", when=WF, result="tcval(%s)" % BODY,
+                           post={"self.packet.pos": "%s + 4 + %s" % (POS, LEN)})],
+               modifies=["self.packet.pos"], returns="int", raises={})
